@@ -996,30 +996,40 @@ def v13_dictionaries_kept_as_given(ctx) -> None:
         for st in walk_local(f):
             if not (isinstance(st, ast.Assign) and any(is_self_attr(t, "extra_parameters") for t in st.targets)):
                 continue
-            n += 1
-            v = D.expanded(f, st.value)
-            txt = norm(v)
-            if "extra_parameters" not in txt:
-                # the default when nothing is given: one empty dictionary per child
-                if isinstance(v, ast.Call) and norm(v.func) == "tuple" and v.args and isinstance(v.args[0], ast.GeneratorExp) and norm(v.args[0].elt) == "{}":
-                    ctx.ok("V13", f"{cls.name}: without dictionaries, one empty dictionary per child")
+            v0 = D.expanded(f, st.value)
+            arms = [v0]
+            # tuple(<conditional>) is the conditional of the tuples; a conditional is read arm by arm
+            if isinstance(v0, ast.Call) and norm(v0.func) == "tuple" and len(v0.args) == 1 and isinstance(v0.args[0], ast.IfExp):
+                arms = [ast.Call(func=v0.func, args=[a_], keywords=[]) for a_ in (v0.args[0].body, v0.args[0].orelse)]
+            elif isinstance(v0, ast.IfExp):
+                arms = [v0.body, v0.orelse]
+            for v in arms:
+                n += 1
+                txt = norm(v)
+                if txt in ("tuple(tuple(({} for _ in children)))",):
+                    txt = "tuple(({} for _ in children))"
+                    v = v.args[0]
+                if "extra_parameters" not in txt:
+                    # the default when nothing is given: one empty dictionary per child
+                    if isinstance(v, ast.Call) and norm(v.func) == "tuple" and v.args and isinstance(v.args[0], ast.GeneratorExp) and norm(v.args[0].elt) == "{}":
+                        ctx.ok("V13", f"{cls.name}: without dictionaries, one empty dictionary per child")
+                        continue
+                    raise AnalysisError(f"V13: {cls.name}.__init__ stores `{txt[:60]}` as its dictionaries")
+                if txt in ("extra_parameters", "tuple(extra_parameters)", "tuple((dict(_m) for _m in extra_parameters))", "tuple((_m.copy() for _m in extra_parameters))"):
+                    ctx.ok("V13", f"{cls.name} keeps the strategy's dictionaries as given (`{txt}`)")
                     continue
-                raise AnalysisError(f"V13: {cls.name}.__init__ stores `{txt[:60]}` as its dictionaries")
-            if txt in ("extra_parameters", "tuple(extra_parameters)", "tuple((dict(_m) for _m in extra_parameters))", "tuple((_m.copy() for _m in extra_parameters))"):
-                ctx.ok("V13", f"{cls.name} keeps the strategy's dictionaries as given (`{txt}`)")
-                continue
-            helpers = [c for c in ast.walk(v) if isinstance(c, ast.Call) and isinstance(c.func, ast.Attribute) and isinstance(c.func.value, ast.Name)
-                       and c.func.value.id in ("self", "cls", cls.name) and P.find_method(cls, c.func.attr) is not None]
-            grows = [x for c in helpers for x in ast.walk(P.find_method(cls, c.func.attr).node)
-                     if (isinstance(x, ast.Dict) and any(k is None for k in x.keys)) or (isinstance(x, ast.Call) and isinstance(x.func, ast.Attribute)
-                                                                                        and x.func.attr in ("setdefault", "update"))
-                     or (isinstance(x, ast.Subscript) and isinstance(x.ctx, ast.Store))]
-            grows += [x for x in ast.walk(v) if isinstance(x, ast.Dict) and any(k is None for k in x.keys)]
-            if grows:
-                ctx.violation("V13", st, f"{cls.name}.__init__ stores `{txt[:70]}`: the dictionaries are completed on the way in (`{norm(grows[0])[:50]}`), but a key that is absent "
-                              "from a child's dictionary means that the child drops that statistic -- the added entry pours another statistic of the child into it")
-            else:
-                raise AnalysisError(f"V13: {cls.name}.__init__ reworks the dictionaries (`{txt[:60]}`) in a way the analysis does not read")
+                helpers = [c for c in ast.walk(v) if isinstance(c, ast.Call) and isinstance(c.func, ast.Attribute) and isinstance(c.func.value, ast.Name)
+                           and c.func.value.id in ("self", "cls", cls.name) and P.find_method(cls, c.func.attr) is not None]
+                grows = [x for c in helpers for x in ast.walk(P.find_method(cls, c.func.attr).node)
+                         if (isinstance(x, ast.Dict) and any(k is None for k in x.keys)) or (isinstance(x, ast.Call) and isinstance(x.func, ast.Attribute)
+                                                                                            and x.func.attr in ("setdefault", "update"))
+                         or (isinstance(x, ast.Subscript) and isinstance(x.ctx, ast.Store))]
+                grows += [x for x in ast.walk(v) if isinstance(x, ast.Dict) and any(k is None for k in x.keys)]
+                if grows:
+                    ctx.violation("V13", st, f"{cls.name}.__init__ stores `{txt[:70]}`: the dictionaries are completed on the way in (`{norm(grows[0])[:50]}`), but a key that is absent "
+                                  "from a child's dictionary means that the child drops that statistic -- the added entry pours another statistic of the child into it")
+                else:
+                    raise AnalysisError(f"V13: {cls.name}.__init__ reworks the dictionaries (`{txt[:60]}`) in a way the analysis does not read")
     if n < 6:
         ctx.floor("V13", 99)
 
@@ -1128,15 +1138,17 @@ def v16_injectivity_is_about_values(ctx) -> None:
         for c in walk_local(m.node):
             if not (isinstance(c, ast.Compare) and len(c.ops) == 1 and isinstance(c.ops[0], (ast.Eq, ast.NotEq))):
                 continue
-            sides = [c.left, c.comparators[0]]
+            sides = [D.expanded(m.node, x) if isinstance(x, ast.Name) else x for x in (c.left, c.comparators[0])]
             lens = [s_ for s_ in sides if isinstance(s_, ast.Call) and norm(s_.func) == "len" and len(s_.args) == 1]
             if len(lens) != 2:
                 continue
             inner = []
             for s_ in lens:
                 a = s_.args[0]
+                a = D.expanded(m.node, a) if isinstance(a, ast.Name) else a
                 if isinstance(a, ast.Call) and norm(a.func) in ("set", "frozenset") and len(a.args) == 1:
                     a = a.args[0]
+                    a = D.expanded(m.node, a) if isinstance(a, ast.Name) else a
                 inner.append(a)
             if norm(inner[0]) != norm(inner[1]):
                 continue
